@@ -240,7 +240,8 @@ def _hyp_campaign(mod, sub: Hyp, tier, seed, shard, nshards, part: Part, known_e
     # Hypothesis' own hard cap on shrinking time is 5 minutes; the quick tier must stay quick.
     _engine.MAX_SHRINKING_SECONDS = 20 if tier == "quick" else 240
 
-    n = max(1, sub.examples // nshards)
+    scale = float(os.environ.get("VERIF_SCALE", "1") or 1)
+    n = max(1, int(sub.examples * scale) // nshards)
     shard_seed = seed * 1000 + shard
     ignored: set = set()
     deadline = _CTX.get("deadline")
@@ -410,6 +411,7 @@ def _pool(n):
 
 def run_subcheck(modname, sub, tier, seed) -> Part:
     total = Part()
+
     nsh = max(1, min(sub.shards, NPROC if sub.shards > 1 else 1))
     if isinstance(sub, Hyp):
         nsh = max(1, min(nsh, sub.examples))
@@ -481,6 +483,37 @@ def replay_case(mod, tier, payload):
         except Violation as v:
             return v
     return None
+
+
+def child_check_block(prop_id, subname, extra_args, scale, label):
+    """An enumeration block that re-runs one sub-check of a property in a CHILD check.py process with extra interpreter
+    flags (e.g. --python-O) and turns its VIOLATION lines back into violations of this run."""
+    import re
+    import subprocess
+
+    def block(shard, nshards):
+        if shard != 0:
+            return {"evals": 0, "nt": 0, "violations": []}
+        env = dict(os.environ, VERIF_SCALE=str(scale))
+        seed = int(os.environ.get("VERIF_SEED", "1") or 1) + 7000
+        cmd = [sys.executable, os.path.join(VERIF_DIR, "check.py"), prop_id, "--tier", "quick", "--only", subname, "--seed", str(seed)] + list(extra_args)
+        p = subprocess.run(cmd, env=env, capture_output=True, text=True, cwd=VERIF_DIR, timeout=3600)
+        m = re.search(r"evals=(\d+) nontrivial=(\d+)", p.stdout)
+        res = {"evals": int(m.group(1)) if m else 0, "nt": int(m.group(2)) if m else 0, "violations": [], "classes": {label: int(m.group(1)) if m else 0}, "samples": [{"child": " ".join(cmd[1:])}]}
+        if p.returncode == 2 or not m:
+            res["notes"] = [f"child check exited {p.returncode}: {p.stderr[-300:]}"]
+            if p.returncode == 2:
+                raise HarnessError(f"child check ({label}) failed: {p.stderr[-300:]}")
+        for path in re.findall(r"^VIOLATION property=\S+ replay=(\S+)$", p.stdout, re.M):
+            try:
+                with open(path) as f:
+                    pl = json.load(f)
+                res["violations"].append({"bucket": f"{label}:{pl['bucket']}", "msg": f"[under {' '.join(extra_args)}] {pl['message']}", "case": pl["case"]})
+            except Exception:
+                res["violations"].append({"bucket": f"{label}:unknown", "msg": f"child reported a violation ({path})", "case": {}})
+        return res
+
+    return block
 
 
 def validate_evidence(ev: dict):
